@@ -761,8 +761,10 @@ pub struct Exec {
     readers: HashMap<String, ReadTransaction>,
     sps: HashMap<String, Savepoint>,
     its: HashMap<String, Box<dyn HeldIter>>,
-    /// (kind, kt, vt) used at the last successful open of each name in a write transaction
     pub panics: u64,
+    /// fault-injection runs replay a script recorded without faults: steps whose handle does not
+    /// exist (because an earlier step failed) are skipped instead of being a script error
+    pub tolerant: bool,
 }
 
 pub fn builder(cfg: &Config) -> Builder {
@@ -795,6 +797,7 @@ impl Exec {
             sps: HashMap::new(),
             its: HashMap::new(),
             panics: 0,
+            tolerant: false,
         }
     }
 
@@ -828,7 +831,54 @@ impl Exec {
     }
 
     /// Execute one step; returns the events it produced
+    /// In tolerant mode: can this step be executed at all?
+    fn applicable(&self, op: &J) -> bool {
+        let e = op["e"].as_str().unwrap_or("");
+        let s = |k: &str| op.get(k).and_then(|x| x.as_str()).unwrap_or("");
+        match e {
+            "bw" => self.wtx.is_none() && self.db.is_some(),
+            "dur" | "2pc" | "qr" | "commit" | "abort" | "dropw" | "rename" | "delete" | "spe" | "spp" | "spdel" | "splist" | "sprestp" => self.wtx.is_some(),
+            "spreste" => self.wtx.is_some() && self.sps.contains_key(s("s")) && self.wtables.is_empty(),
+            "open" => self.wtx.is_some() && !self.wtables.contains_key(s("n")),
+            "close" | "ins" | "insr" | "getmut" | "entry" | "rem" | "pop" | "retain" | "extract" | "mins" | "mrem" | "mremall" => self.wtables.contains_key(s("n")),
+            "get" | "len" | "edge" | "range" | "mget" | "mrange" | "ropen" | "list" => {
+                let src = if s("src").is_empty() { s("h") } else { s("src") };
+                if src == "w" {
+                    if e == "list" { self.wtx.is_some() } else { self.wtables.contains_key(s("n")) }
+                } else {
+                    self.readers.contains_key(src)
+                }
+            }
+            "br" => self.db.is_some() && !self.readers.contains_key(s("h")),
+            "dr" => self.readers.contains_key(s("h")),
+            "dump" | "hold" => self.readers.contains_key(s("src")),
+            "itnext" | "itdrop" => self.its.contains_key(s("it")),
+            "spdrop" => self.sps.contains_key(s("s")),
+            "compact" | "integrity" | "acct" => self.wtx.is_none() && self.db.is_some(),
+            _ => true,
+        }
+    }
+
     pub fn step(&mut self, op: &J) -> Vec<J> {
+        if self.tolerant {
+            if !self.applicable(op) {
+                return vec![json!({"e": "note", "what": "skipped", "step": op["e"]})];
+            }
+            if matches!(op["e"].as_str(), Some("commit" | "abort" | "dropw")) && !self.wtables.is_empty() {
+                // handles that the recorded script closed through steps that were skipped
+                let names: Vec<String> = self.wtables.keys().cloned().collect();
+                let mut evs = vec![];
+                for n in names {
+                    evs.extend(self.step(&json!({"e": "close", "n": n})));
+                }
+                evs.extend(self.step_exec(op));
+                return evs;
+            }
+        }
+        self.step_exec(op)
+    }
+
+    fn step_exec(&mut self, op: &J) -> Vec<J> {
         let b0 = self.store.log_len();
         let res = catch_unwind(AssertUnwindSafe(|| self.step_inner(op)));
         let mut evs = match res {
@@ -1040,9 +1090,14 @@ impl Exec {
                 let (kt, vt) = (op["kt"].as_str().unwrap(), op["vt"].as_str().unwrap());
                 let owned = op.get("owned").and_then(|b| b.as_bool()).unwrap_or(false);
                 let rt = &self.readers[src];
-                let it = dispatch_t!(kt, vt, hold_iter(rt, &self.cx, n, kt, vt, op, owned)).expect("hold");
-                self.its.insert(op["it"].as_str().unwrap().to_string(), it);
-                vec![op.clone()]
+                let r = match dispatch_t!(kt, vt, hold_iter(rt, &self.cx, n, kt, vt, op, owned)) {
+                    Ok(it) => {
+                        self.its.insert(op["it"].as_str().unwrap().to_string(), it);
+                        ok(json!(0))
+                    }
+                    Err(e) => er(e),
+                };
+                Self::with_r(op, r)
             }
             "itnext" => {
                 let it = self.its.get_mut(op["it"].as_str().unwrap()).expect("unknown iterator");
@@ -1158,7 +1213,7 @@ impl Exec {
                 let mode = if op["mode"].as_str() == Some("once") { FaultMode::Once } else { FaultMode::Permanent };
                 let at = op["at"].as_u64().map(|k| (k, mode));
                 self.store.set_fault(at);
-                vec![json!({"e": "note", "what": "fault", "at": op["at"], "mode": op["mode"]})]
+                vec![json!({"e": "fault", "at": op["at"].as_i64().unwrap_or(-1), "mode": op["mode"].as_str().unwrap_or("off")})]
             }
             "acct" => vec![self.acct(op)],
             "note" => vec![op.clone()],
